@@ -388,8 +388,8 @@ package db
 //@   ensures [C06 list.trail] auditLog == old(auditLog) || auditLog == snoc(old(auditLog), evC(caller, "info", "", 0, true))
 //@   ensures [C06 list.logged] err == nil ==> auditLog == snoc(old(auditLog), evC(caller, "info", "", 0, true))
 //@   ensures [C06 list.failclosed] err != nil ==> ret == nil
-//@   ensures [C01 list.sound] err == nil ==> (forall j int :: (0 <= j && j < len(ret)) ==> listedOK(db, caller, ret[j]))
-//@   ensures [C01 list.complete] err == nil ==> (forall n string :: (has(db.kv.secrets, n) && allows(caller.Permissions, "info", n)) ==>
+//@   ensures [C01,C07 list.sound] err == nil ==> (forall j int :: (0 <= j && j < len(ret)) ==> listedOK(db, caller, ret[j]))
+//@   ensures [C01,C07 list.complete] err == nil ==> (forall n string :: (has(db.kv.secrets, n) && allows(caller.Permissions, "info", n)) ==>
 //@        (exists j int :: 0 <= j && j < len(ret) && ret[j] != nil && ret[j].Name == n))
 //@   at call list: assert [C14 list.locked] db.mu
 //@   at call info: assert [C14 list.info-locked] db.mu
